@@ -267,6 +267,9 @@ class JSObject:
         self._properties: Dict[str, JSValue] = {}
         self._getters: Dict[str, Any] = {}  # property name -> getter function
         self._setters: Dict[str, Any] = {}  # property name -> setter function
+        # Own keys in creation order, data and accessor alike; only materialised once
+        # the object has an accessor (until then _properties itself is the order)
+        self._order: Optional[Dict[str, None]] = None
         self._prototype = prototype
 
     def get(self, key: str) -> JSValue:
@@ -293,17 +296,26 @@ class JSObject:
             return self._prototype.get_setter(key)
         return None
 
+    def _note_accessor(self, key: str) -> None:
+        if self._order is None:
+            self._order = dict.fromkeys(self._properties)
+        self._order[key] = None  # an existing key keeps its position
+
     def define_getter(self, key: str, getter: Any) -> None:
         """Define a getter for a property."""
         self._getters[key] = getter
+        self._note_accessor(key)
 
     def define_setter(self, key: str, setter: Any) -> None:
         """Define a setter for a property."""
         self._setters[key] = setter
+        self._note_accessor(key)
 
     def set(self, key: str, value: JSValue) -> None:
         """Set a property value."""
         self._properties[key] = value
+        if self._order is not None:
+            self._order[key] = None
 
     def has(self, key: str) -> bool:
         """Check if object has own property."""
@@ -315,11 +327,13 @@ class JSObject:
         self._properties.pop(key, None)
         self._getters.pop(key, None)
         self._setters.pop(key, None)
+        if self._order is not None:
+            self._order.pop(key, None)
         return True
 
     def keys(self) -> List[str]:
-        """Get own enumerable property keys."""
-        return list(self._properties.keys())
+        """Get own enumerable property keys, data and accessor, in creation order."""
+        return list(self._properties if self._order is None else self._order)
 
     def __repr__(self) -> str:
         return f"JSObject({self._properties})"
